@@ -3,8 +3,8 @@ from checks_path import *  # noqa
 from conc_common import run_conc, replay_conc
 
 PROPERTY = 'C18'
-GEN = ['LogicVerify']
-PROPS = ['SalsaVerif.Props.C18', 'SalsaVerif.Props.GenLogicVerify']
+GEN = ['LogicVerify', 'LogicDG']
+PROPS = ['SalsaVerif.Props.C18', 'SalsaVerif.Props.GenLogicVerify', 'SalsaVerif.Props.GenLogicDG']
 EXPLANATION = ('Theorems about ownership transfer in the Lean dependency-graph model, over arbitrary step sequences including transfers: the '
                'transferred map is a forest with transferred_dependents as its exact inverse (under a stated client precondition whose '
                'violations are counted on real traces: expected 0), the wait-for graph stays acyclic across transfers, a transfer wakes at '
